@@ -1,4 +1,4 @@
-import Qfproto.GrouperProof
+import QF.Core.GrouperProof
 /-! Prototype: table invariant and its preservation by one insertion (no growth). -/
 namespace G
 
